@@ -101,7 +101,7 @@ pub enum KK {
     PkePublic,
     PkeSecret,
 }
-const KKS: [KK; 5] = [KK::Local, KK::Public, KK::Secret, KK::PkePublic, KK::PkeSecret];
+pub const KKS: [KK; 5] = [KK::Local, KK::Public, KK::Secret, KK::PkePublic, KK::PkeSecret];
 
 fn edges_for(kk: KK, v1_quick: bool) -> Vec<Edge> {
     let mut e = GENERIC_EDGES.to_vec();
@@ -469,7 +469,7 @@ fn try_decode<V: Full>(kk: KK, b: &[u8]) -> Result<Option<Vec<u8>>, String> {
     })
 }
 
-struct Decode<'a>(KK, &'a [u8]);
+pub struct Decode<'a>(pub KK, pub &'a [u8]);
 impl Visitor for Decode<'_> {
     type Out = Result<Option<Vec<u8>>, String>;
     fn visit<V: Full>(self) -> Self::Out {
